@@ -1,47 +1,143 @@
 /-
-C04 proofs — structural invariants (propMx, propHeld, noResetOp, noResetPc, epochLe): preservation by `exec` and `begin`.
+C04 proofs — structural invariants (propMx, propHeld, epochLe, joinedLe, freshLe, walkG, syncG): preservation by `exec` and `begin`.
 -/
-import TbbVerif.Proofs.C04.ReachLemmas
+import TbbVerif.Proofs.C04.HintA
 
 namespace TbbVerif.C04
-variable {cfg : Cfg} {reg : List Nat} {s : St} {t : Nat}
+variable {cfg : Cfg} {r : List RF} {reg : List Nat} {s : St} {t : Nat}
 
-theorem propMx_exec (hS : Struct reg s) (hO : Orig s) (hR : Reach reg s) :
-    ∀ t', ((exec C reg s t).pc t').inProp = true → (exec C reg s t).propMx = some t' := by
+theorem propMx_exec_c (hS : Struct reg s) (hO : Orig s) (hH : Hint s) (hR : Reach reg s) :
+    ∀ t', ((execCancel (C r) reg s t).pc t').inProp = true → (execCancel (C r) reg s t).propMx = some t' := by
   have g0 := hR.propMx
   have g0t := hR.propMx t
-  exec_cases_C
+  unfold execCancel
+  try unfold walkNext
+  try unfold afterHint
+  try unfold applyReset
+  try simp only [C_propHolds, C_copyNeverClears, afterLists, ↓reduceIte, Bool.true_and]
+  repeat' split
   all_goals (try rw [‹s.pc t = _›] at g0t)
   all_goals (try simp [Pc.inProp] at g0t)
-  all_goals (intro t' h1; by_cases ht : t' = t <;> first | (subst ht; try simp [C, upd_apply, afterLists, nextList, Pc.inProp] at h1 ⊢) | (try simp [ht, upd_apply, afterLists, nextList] at h1 ⊢))
+  all_goals (intro t' h1; by_cases ht : t' = t <;> first | (subst ht; try simp [C, upd_apply, afterLists, nextList, Pc.inProp] at h1 ⊢) | (try simp [ht, C, upd_apply, afterLists, nextList] at h1 ⊢))
   all_goals grind [Pc.inProp]
 
-theorem propMx_begin (hS : Struct reg s) (hO : Orig s) (hR : Reach reg s) (hi : s.pc t = .idle) :
-    ∀ t', ((begin reg s t).pc t').inProp = true → (begin reg s t).propMx = some t' := by
+theorem propMx_exec_b (hS : Struct reg s) (hO : Orig s) (hH : Hint s) (hR : Reach reg s) :
+    ∀ t', ((execBind (C r) s t).pc t').inProp = true → (execBind (C r) s t).propMx = some t' := by
+  have g0 := hR.propMx
+  have g0t := hR.propMx t
+  unfold execBind
+  try unfold walkNext
+  try unfold afterHint
+  try unfold applyReset
+  try simp only [C_propHolds, C_copyNeverClears, afterLists, ↓reduceIte, Bool.true_and]
+  repeat' split
+  all_goals (try rw [‹s.pc t = _›] at g0t)
+  all_goals (try simp [Pc.inProp] at g0t)
+  all_goals (intro t' h1; by_cases ht : t' = t <;> first | (subst ht; try simp [C, upd_apply, afterLists, nextList, Pc.inProp] at h1 ⊢) | (try simp [ht, C, upd_apply, afterLists, nextList] at h1 ⊢))
+  all_goals grind [Pc.inProp]
+
+theorem propMx_exec_o (hS : Struct reg s) (hO : Orig s) (hH : Hint s) (hR : Reach reg s) :
+    ∀ t', ((execOther s t).pc t').inProp = true → (execOther s t).propMx = some t' := by
+  have g0 := hR.propMx
+  have g0t := hR.propMx t
+  unfold execOther
+  try unfold walkNext
+  try unfold afterHint
+  try unfold applyReset
+  try simp only [C_propHolds, C_copyNeverClears, afterLists, ↓reduceIte, Bool.true_and]
+  repeat' split
+  all_goals (try rw [‹s.pc t = _›] at g0t)
+  all_goals (try simp [Pc.inProp] at g0t)
+  all_goals (intro t' h1; by_cases ht : t' = t <;> first | (subst ht; try simp [C, upd_apply, afterLists, nextList, Pc.inProp] at h1 ⊢) | (try simp [ht, C, upd_apply, afterLists, nextList] at h1 ⊢))
+  all_goals grind [Pc.inProp]
+
+theorem propMx_exec (hS : Struct reg s) (hO : Orig s) (hH : Hint s) (hR : Reach reg s) :
+    ∀ t', ((exec (C r) reg s t).pc t').inProp = true → (exec (C r) reg s t).propMx = some t' := by
+  unfold exec
+  split
+  · exact propMx_exec_c hS hO hH hR
+  · split
+    · exact propMx_exec_b hS hO hH hR
+    · exact propMx_exec_o hS hO hH hR
+
+theorem propMx_begin (hS : Struct reg s) (hO : Orig s) (hH : Hint s) (hR : Reach reg s) (hi : s.pc t = .idle) :
+    ∀ t', ((begin (C r) reg s t).pc t').inProp = true → (begin (C r) reg s t).propMx = some t' := by
   have g0 := hR.propMx
   have g0t := hR.propMx t
   begin_cases
   all_goals (try rw [hi] at g0t)
   all_goals (try simp [Pc.inProp] at g0t)
-  all_goals (intro t' h1; by_cases ht : t' = t <;> first | (subst ht; try simp [C, upd_apply, afterLists, nextList, Pc.inProp] at h1 ⊢) | (try simp [ht, upd_apply, afterLists, nextList] at h1 ⊢))
+  all_goals (intro t' h1; by_cases ht : t' = t <;> first | (subst ht; try simp [C, upd_apply, afterLists, nextList, Pc.inProp] at h1 ⊢) | (try simp [ht, C, upd_apply, afterLists, nextList] at h1 ⊢))
   all_goals grind [Pc.inProp]
 
-theorem propHeld_exec (hS : Struct reg s) (hO : Orig s) (hR : Reach reg s) :
-    ∀ t', (exec C reg s t).propMx = some t' → ((exec C reg s t).pc t').inProp = true := by
+theorem propHeld_exec_c (hS : Struct reg s) (hO : Orig s) (hH : Hint s) (hR : Reach reg s) :
+    ∀ t', (execCancel (C r) reg s t).propMx = some t' → ((execCancel (C r) reg s t).pc t').inProp = true := by
   have g0 := hR.propMx
   have g0t := hR.propMx t
   have g1 := hR.propHeld
   have g1t := hR.propHeld t
-  exec_cases_C
+  unfold execCancel
+  try unfold walkNext
+  try unfold afterHint
+  try unfold applyReset
+  try simp only [C_propHolds, C_copyNeverClears, afterLists, ↓reduceIte, Bool.true_and]
+  repeat' split
   all_goals (try rw [‹s.pc t = _›] at g0t)
   all_goals (try simp [Pc.inProp] at g0t)
   all_goals (try rw [‹s.pc t = _›] at g1t)
   all_goals (try simp [Pc.inProp] at g1t)
-  all_goals (intro t' h1; by_cases ht : t' = t <;> first | (subst ht; try simp [C, upd_apply, afterLists, nextList, Pc.inProp] at h1 ⊢) | (try simp [ht, upd_apply, afterLists, nextList] at h1 ⊢))
+  all_goals (intro t' h1; by_cases ht : t' = t <;> first | (subst ht; try simp [C, upd_apply, afterLists, nextList, Pc.inProp] at h1 ⊢) | (try simp [ht, C, upd_apply, afterLists, nextList] at h1 ⊢))
   all_goals grind [Pc.inProp]
 
-theorem propHeld_begin (hS : Struct reg s) (hO : Orig s) (hR : Reach reg s) (hi : s.pc t = .idle) :
-    ∀ t', (begin reg s t).propMx = some t' → ((begin reg s t).pc t').inProp = true := by
+theorem propHeld_exec_b (hS : Struct reg s) (hO : Orig s) (hH : Hint s) (hR : Reach reg s) :
+    ∀ t', (execBind (C r) s t).propMx = some t' → ((execBind (C r) s t).pc t').inProp = true := by
+  have g0 := hR.propMx
+  have g0t := hR.propMx t
+  have g1 := hR.propHeld
+  have g1t := hR.propHeld t
+  unfold execBind
+  try unfold walkNext
+  try unfold afterHint
+  try unfold applyReset
+  try simp only [C_propHolds, C_copyNeverClears, afterLists, ↓reduceIte, Bool.true_and]
+  repeat' split
+  all_goals (try rw [‹s.pc t = _›] at g0t)
+  all_goals (try simp [Pc.inProp] at g0t)
+  all_goals (try rw [‹s.pc t = _›] at g1t)
+  all_goals (try simp [Pc.inProp] at g1t)
+  all_goals (intro t' h1; by_cases ht : t' = t <;> first | (subst ht; try simp [C, upd_apply, afterLists, nextList, Pc.inProp] at h1 ⊢) | (try simp [ht, C, upd_apply, afterLists, nextList] at h1 ⊢))
+  all_goals grind [Pc.inProp]
+
+theorem propHeld_exec_o (hS : Struct reg s) (hO : Orig s) (hH : Hint s) (hR : Reach reg s) :
+    ∀ t', (execOther s t).propMx = some t' → ((execOther s t).pc t').inProp = true := by
+  have g0 := hR.propMx
+  have g0t := hR.propMx t
+  have g1 := hR.propHeld
+  have g1t := hR.propHeld t
+  unfold execOther
+  try unfold walkNext
+  try unfold afterHint
+  try unfold applyReset
+  try simp only [C_propHolds, C_copyNeverClears, afterLists, ↓reduceIte, Bool.true_and]
+  repeat' split
+  all_goals (try rw [‹s.pc t = _›] at g0t)
+  all_goals (try simp [Pc.inProp] at g0t)
+  all_goals (try rw [‹s.pc t = _›] at g1t)
+  all_goals (try simp [Pc.inProp] at g1t)
+  all_goals (intro t' h1; by_cases ht : t' = t <;> first | (subst ht; try simp [C, upd_apply, afterLists, nextList, Pc.inProp] at h1 ⊢) | (try simp [ht, C, upd_apply, afterLists, nextList] at h1 ⊢))
+  all_goals grind [Pc.inProp]
+
+theorem propHeld_exec (hS : Struct reg s) (hO : Orig s) (hH : Hint s) (hR : Reach reg s) :
+    ∀ t', (exec (C r) reg s t).propMx = some t' → ((exec (C r) reg s t).pc t').inProp = true := by
+  unfold exec
+  split
+  · exact propHeld_exec_c hS hO hH hR
+  · split
+    · exact propHeld_exec_b hS hO hH hR
+    · exact propHeld_exec_o hS hO hH hR
+
+theorem propHeld_begin (hS : Struct reg s) (hO : Orig s) (hH : Hint s) (hR : Reach reg s) (hi : s.pc t = .idle) :
+    ∀ t', (begin (C r) reg s t).propMx = some t' → ((begin (C r) reg s t).pc t').inProp = true := by
   have g0 := hR.propMx
   have g0t := hR.propMx t
   have g1 := hR.propHeld
@@ -51,70 +147,68 @@ theorem propHeld_begin (hS : Struct reg s) (hO : Orig s) (hR : Reach reg s) (hi 
   all_goals (try simp [Pc.inProp] at g0t)
   all_goals (try rw [hi] at g1t)
   all_goals (try simp [Pc.inProp] at g1t)
-  all_goals (intro t' h1; by_cases ht : t' = t <;> first | (subst ht; try simp [C, upd_apply, afterLists, nextList, Pc.inProp] at h1 ⊢) | (try simp [ht, upd_apply, afterLists, nextList] at h1 ⊢))
+  all_goals (intro t' h1; by_cases ht : t' = t <;> first | (subst ht; try simp [C, upd_apply, afterLists, nextList, Pc.inProp] at h1 ⊢) | (try simp [ht, C, upd_apply, afterLists, nextList] at h1 ⊢))
   all_goals grind [Pc.inProp]
 
-theorem noResetOp_exec (hS : Struct reg s) (hO : Orig s) (hR : Reach reg s) :
-    ∀ t' x, Op.reset x ∉ (exec C reg s t).prog t' := by
-  have g0 := hR.noResetOp
-  have g0t := hR.noResetOp t
-  exec_cases_C
-  all_goals (try rw [‹s.pc t = _›] at g0t)
-  all_goals (try simp [List.mem_cons] at g0t)
-  all_goals (intro t' x; by_cases ht : t' = t <;> first | (subst ht; try simp [C, upd_apply, afterLists, nextList, List.mem_cons] at  ⊢) | (try simp [ht, upd_apply, afterLists, nextList] at  ⊢))
-  all_goals grind [List.mem_cons]
-
-theorem noResetOp_begin (hS : Struct reg s) (hO : Orig s) (hR : Reach reg s) (hi : s.pc t = .idle) :
-    ∀ t' x, Op.reset x ∉ (begin reg s t).prog t' := by
-  have g0 := hR.noResetOp
-  have g0t := hR.noResetOp t
-  begin_cases
-  all_goals (try rw [hi] at g0t)
-  all_goals (try simp [List.mem_cons] at g0t)
-  all_goals (intro t' x; by_cases ht : t' = t <;> first | (subst ht; try simp [C, upd_apply, afterLists, nextList, List.mem_cons] at  ⊢) | (try simp [ht, upd_apply, afterLists, nextList] at  ⊢))
-  all_goals grind [List.mem_cons]
-
-theorem noResetPc_exec (hS : Struct reg s) (hO : Orig s) (hR : Reach reg s) :
-    ∀ t' x, (exec C reg s t).pc t' ≠ .rStore x := by
-  have g0 := hR.noResetPc
-  have g0t := hR.noResetPc t
-  have g1 := hR.noResetOp
-  have g1t := hR.noResetOp t
-  exec_cases_C
-  all_goals (try rw [‹s.pc t = _›] at g0t)
-  all_goals (try simp [List.mem_cons] at g0t)
-  all_goals (try rw [‹s.pc t = _›] at g1t)
-  all_goals (try simp [List.mem_cons] at g1t)
-  all_goals (intro t' x; by_cases ht : t' = t <;> first | (subst ht; try simp [C, upd_apply, afterLists, nextList, List.mem_cons] at  ⊢) | (try simp [ht, upd_apply, afterLists, nextList] at  ⊢))
-  all_goals grind [List.mem_cons]
-
-theorem noResetPc_begin (hS : Struct reg s) (hO : Orig s) (hR : Reach reg s) (hi : s.pc t = .idle) :
-    ∀ t' x, (begin reg s t).pc t' ≠ .rStore x := by
-  have g0 := hR.noResetPc
-  have g0t := hR.noResetPc t
-  have g1 := hR.noResetOp
-  have g1t := hR.noResetOp t
-  begin_cases
-  all_goals (try rw [hi] at g0t)
-  all_goals (try simp [List.mem_cons] at g0t)
-  all_goals (try rw [hi] at g1t)
-  all_goals (try simp [List.mem_cons] at g1t)
-  all_goals (intro t' x; by_cases ht : t' = t <;> first | (subst ht; try simp [C, upd_apply, afterLists, nextList, List.mem_cons] at  ⊢) | (try simp [ht, upd_apply, afterLists, nextList] at  ⊢))
-  all_goals grind [List.mem_cons]
-
-theorem epochLe_exec (hS : Struct reg s) (hO : Orig s) (hR : Reach reg s) :
-    ∀ L, (exec C reg s t).epoch L ≤ (exec C reg s t).G := by
+theorem epochLe_exec_c (hS : Struct reg s) (hO : Orig s) (hH : Hint s) (hR : Reach reg s) :
+    ∀ L, (execCancel (C r) reg s t).epoch L ≤ (execCancel (C r) reg s t).G := by
   have g0 := hR.epochLe
   have g1 := hR.syncG
   have g1t := hR.syncG t
-  exec_cases_C
+  unfold execCancel
+  try unfold walkNext
+  try unfold afterHint
+  try unfold applyReset
+  try simp only [C_propHolds, C_copyNeverClears, afterLists, ↓reduceIte, Bool.true_and]
+  repeat' split
   all_goals (try rw [‹s.pc t = _›] at g1t)
   all_goals (try simp [] at g1t)
   all_goals (intro L; try simp [C, upd_apply, afterLists, nextList] at  ⊢)
   all_goals grind []
 
-theorem epochLe_begin (hS : Struct reg s) (hO : Orig s) (hR : Reach reg s) (hi : s.pc t = .idle) :
-    ∀ L, (begin reg s t).epoch L ≤ (begin reg s t).G := by
+theorem epochLe_exec_b (hS : Struct reg s) (hO : Orig s) (hH : Hint s) (hR : Reach reg s) :
+    ∀ L, (execBind (C r) s t).epoch L ≤ (execBind (C r) s t).G := by
+  have g0 := hR.epochLe
+  have g1 := hR.syncG
+  have g1t := hR.syncG t
+  unfold execBind
+  try unfold walkNext
+  try unfold afterHint
+  try unfold applyReset
+  try simp only [C_propHolds, C_copyNeverClears, afterLists, ↓reduceIte, Bool.true_and]
+  repeat' split
+  all_goals (try rw [‹s.pc t = _›] at g1t)
+  all_goals (try simp [] at g1t)
+  all_goals (intro L; try simp [C, upd_apply, afterLists, nextList] at  ⊢)
+  all_goals grind []
+
+theorem epochLe_exec_o (hS : Struct reg s) (hO : Orig s) (hH : Hint s) (hR : Reach reg s) :
+    ∀ L, (execOther s t).epoch L ≤ (execOther s t).G := by
+  have g0 := hR.epochLe
+  have g1 := hR.syncG
+  have g1t := hR.syncG t
+  unfold execOther
+  try unfold walkNext
+  try unfold afterHint
+  try unfold applyReset
+  try simp only [C_propHolds, C_copyNeverClears, afterLists, ↓reduceIte, Bool.true_and]
+  repeat' split
+  all_goals (try rw [‹s.pc t = _›] at g1t)
+  all_goals (try simp [] at g1t)
+  all_goals (intro L; try simp [C, upd_apply, afterLists, nextList] at  ⊢)
+  all_goals grind []
+
+theorem epochLe_exec (hS : Struct reg s) (hO : Orig s) (hH : Hint s) (hR : Reach reg s) :
+    ∀ L, (exec (C r) reg s t).epoch L ≤ (exec (C r) reg s t).G := by
+  unfold exec
+  split
+  · exact epochLe_exec_c hS hO hH hR
+  · split
+    · exact epochLe_exec_b hS hO hH hR
+    · exact epochLe_exec_o hS hO hH hR
+
+theorem epochLe_begin (hS : Struct reg s) (hO : Orig s) (hH : Hint s) (hR : Reach reg s) (hi : s.pc t = .idle) :
+    ∀ L, (begin (C r) reg s t).epoch L ≤ (begin (C r) reg s t).G := by
   have g0 := hR.epochLe
   have g1 := hR.syncG
   have g1t := hR.syncG t
@@ -123,5 +217,305 @@ theorem epochLe_begin (hS : Struct reg s) (hO : Orig s) (hR : Reach reg s) (hi :
   all_goals (try simp [] at g1t)
   all_goals (intro L; try simp [C, upd_apply, afterLists, nextList] at  ⊢)
   all_goals grind []
+
+theorem joinedLe_exec_c (hS : Struct reg s) (hO : Orig s) (hH : Hint s) (hR : Reach reg s) :
+    ∀ L, (execCancel (C r) reg s t).joined L ≤ (execCancel (C r) reg s t).G := by
+  have g0 := hR.joinedLe
+  unfold execCancel
+  try unfold walkNext
+  try unfold afterHint
+  try unfold applyReset
+  try simp only [C_propHolds, C_copyNeverClears, afterLists, ↓reduceIte, Bool.true_and]
+  repeat' split
+  all_goals (intro L; try simp [C, upd_apply, afterLists, nextList] at  ⊢)
+  all_goals grind []
+
+theorem joinedLe_exec_b (hS : Struct reg s) (hO : Orig s) (hH : Hint s) (hR : Reach reg s) :
+    ∀ L, (execBind (C r) s t).joined L ≤ (execBind (C r) s t).G := by
+  have g0 := hR.joinedLe
+  unfold execBind
+  try unfold walkNext
+  try unfold afterHint
+  try unfold applyReset
+  try simp only [C_propHolds, C_copyNeverClears, afterLists, ↓reduceIte, Bool.true_and]
+  repeat' split
+  all_goals (intro L; try simp [C, upd_apply, afterLists, nextList] at  ⊢)
+  all_goals grind []
+
+theorem joinedLe_exec_o (hS : Struct reg s) (hO : Orig s) (hH : Hint s) (hR : Reach reg s) :
+    ∀ L, (execOther s t).joined L ≤ (execOther s t).G := by
+  have g0 := hR.joinedLe
+  unfold execOther
+  try unfold walkNext
+  try unfold afterHint
+  try unfold applyReset
+  try simp only [C_propHolds, C_copyNeverClears, afterLists, ↓reduceIte, Bool.true_and]
+  repeat' split
+  all_goals (intro L; try simp [C, upd_apply, afterLists, nextList] at  ⊢)
+  all_goals grind []
+
+theorem joinedLe_exec (hS : Struct reg s) (hO : Orig s) (hH : Hint s) (hR : Reach reg s) :
+    ∀ L, (exec (C r) reg s t).joined L ≤ (exec (C r) reg s t).G := by
+  unfold exec
+  split
+  · exact joinedLe_exec_c hS hO hH hR
+  · split
+    · exact joinedLe_exec_b hS hO hH hR
+    · exact joinedLe_exec_o hS hO hH hR
+
+theorem joinedLe_begin (hS : Struct reg s) (hO : Orig s) (hH : Hint s) (hR : Reach reg s) (hi : s.pc t = .idle) :
+    ∀ L, (begin (C r) reg s t).joined L ≤ (begin (C r) reg s t).G := by
+  have g0 := hR.joinedLe
+  begin_cases
+  all_goals (intro L; try simp [C, upd_apply, afterLists, nextList] at  ⊢)
+  all_goals grind []
+
+theorem freshLe_exec_c (hS : Struct reg s) (hO : Orig s) (hH : Hint s) (hR : Reach reg s) :
+    ∀ L, (execCancel (C r) reg s t).fresh L = true → (execCancel (C r) reg s t).epoch L ≤ (execCancel (C r) reg s t).joined L := by
+  have g0 := hR.freshLe
+  have g1 := hR.epochLe
+  have g2 := hS.walkAct
+  have g2t := hS.walkAct t
+  have g3 := hS.regPc
+  have g3t := hS.regPc t
+  unfold execCancel
+  try unfold walkNext
+  try unfold afterHint
+  try unfold applyReset
+  try simp only [C_propHolds, C_copyNeverClears, afterLists, ↓reduceIte, Bool.true_and]
+  repeat' split
+  all_goals (try rw [‹s.pc t = _›] at g2t)
+  all_goals (try simp [Pc.atList] at g2t)
+  all_goals (try rw [‹s.pc t = _›] at g3t)
+  all_goals (try simp [Pc.atList] at g3t)
+  all_goals (intro L h1; try simp [C, upd_apply, afterLists, nextList] at h1 ⊢)
+  all_goals grind [Pc.atList]
+
+theorem freshLe_exec_b (hS : Struct reg s) (hO : Orig s) (hH : Hint s) (hR : Reach reg s) :
+    ∀ L, (execBind (C r) s t).fresh L = true → (execBind (C r) s t).epoch L ≤ (execBind (C r) s t).joined L := by
+  have g0 := hR.freshLe
+  have g1 := hR.epochLe
+  have g2 := hS.walkAct
+  have g2t := hS.walkAct t
+  have g3 := hS.regPc
+  have g3t := hS.regPc t
+  unfold execBind
+  try unfold walkNext
+  try unfold afterHint
+  try unfold applyReset
+  try simp only [C_propHolds, C_copyNeverClears, afterLists, ↓reduceIte, Bool.true_and]
+  repeat' split
+  all_goals (try rw [‹s.pc t = _›] at g2t)
+  all_goals (try simp [Pc.atList] at g2t)
+  all_goals (try rw [‹s.pc t = _›] at g3t)
+  all_goals (try simp [Pc.atList] at g3t)
+  all_goals (intro L h1; try simp [C, upd_apply, afterLists, nextList] at h1 ⊢)
+  all_goals grind [Pc.atList]
+
+theorem freshLe_exec_o (hS : Struct reg s) (hO : Orig s) (hH : Hint s) (hR : Reach reg s) :
+    ∀ L, (execOther s t).fresh L = true → (execOther s t).epoch L ≤ (execOther s t).joined L := by
+  have g0 := hR.freshLe
+  have g1 := hR.epochLe
+  have g2 := hS.walkAct
+  have g2t := hS.walkAct t
+  have g3 := hS.regPc
+  have g3t := hS.regPc t
+  unfold execOther
+  try unfold walkNext
+  try unfold afterHint
+  try unfold applyReset
+  try simp only [C_propHolds, C_copyNeverClears, afterLists, ↓reduceIte, Bool.true_and]
+  repeat' split
+  all_goals (try rw [‹s.pc t = _›] at g2t)
+  all_goals (try simp [Pc.atList] at g2t)
+  all_goals (try rw [‹s.pc t = _›] at g3t)
+  all_goals (try simp [Pc.atList] at g3t)
+  all_goals (intro L h1; try simp [C, upd_apply, afterLists, nextList] at h1 ⊢)
+  all_goals grind [Pc.atList]
+
+theorem freshLe_exec (hS : Struct reg s) (hO : Orig s) (hH : Hint s) (hR : Reach reg s) :
+    ∀ L, (exec (C r) reg s t).fresh L = true → (exec (C r) reg s t).epoch L ≤ (exec (C r) reg s t).joined L := by
+  unfold exec
+  split
+  · exact freshLe_exec_c hS hO hH hR
+  · split
+    · exact freshLe_exec_b hS hO hH hR
+    · exact freshLe_exec_o hS hO hH hR
+
+theorem freshLe_begin (hS : Struct reg s) (hO : Orig s) (hH : Hint s) (hR : Reach reg s) (hi : s.pc t = .idle) :
+    ∀ L, (begin (C r) reg s t).fresh L = true → (begin (C r) reg s t).epoch L ≤ (begin (C r) reg s t).joined L := by
+  have g0 := hR.freshLe
+  have g1 := hR.epochLe
+  have g2 := hS.walkAct
+  have g2t := hS.walkAct t
+  have g3 := hS.regPc
+  have g3t := hS.regPc t
+  begin_cases
+  all_goals (try rw [hi] at g2t)
+  all_goals (try simp [Pc.atList] at g2t)
+  all_goals (try rw [hi] at g3t)
+  all_goals (try simp [Pc.atList] at g3t)
+  all_goals (intro L h1; try simp [C, upd_apply, afterLists, nextList] at h1 ⊢)
+  all_goals grind [Pc.atList]
+
+theorem walkG_exec_c (hS : Struct reg s) (hO : Orig s) (hH : Hint s) (hR : Reach reg s) :
+    ∀ t' a, ((execCancel (C r) reg s t).pc t').walkSrc = some a → (execCancel (C r) reg s t).srcOf (execCancel (C r) reg s t).G = a ∧ 1 ≤ (execCancel (C r) reg s t).G := by
+  have g0 := hR.walkG
+  have g0t := hR.walkG t
+  have g1 := hS.regMx
+  have g1t := hS.regMx t
+  unfold execCancel
+  try unfold walkNext
+  try unfold afterHint
+  try unfold applyReset
+  try simp only [C_propHolds, C_copyNeverClears, afterLists, ↓reduceIte, Bool.true_and]
+  repeat' split
+  all_goals (try rw [‹s.pc t = _›] at g0t)
+  all_goals (try simp [Pc.walkSrc, Pc.inReg, Pc.walkSrc_inReg] at g0t)
+  all_goals (try rw [‹s.pc t = _›] at g1t)
+  all_goals (try simp [Pc.walkSrc, Pc.inReg, Pc.walkSrc_inReg] at g1t)
+  all_goals (intro t' a h1; by_cases ht : t' = t <;> first | (subst ht; try simp [C, upd_apply, afterLists, nextList, Pc.walkSrc, Pc.inReg, Pc.walkSrc_inReg] at h1 ⊢) | (try simp [ht, C, upd_apply, afterLists, nextList] at h1 ⊢))
+  all_goals grind [Pc.walkSrc, Pc.inReg, Pc.walkSrc_inReg]
+
+theorem walkG_exec_b (hS : Struct reg s) (hO : Orig s) (hH : Hint s) (hR : Reach reg s) :
+    ∀ t' a, ((execBind (C r) s t).pc t').walkSrc = some a → (execBind (C r) s t).srcOf (execBind (C r) s t).G = a ∧ 1 ≤ (execBind (C r) s t).G := by
+  have g0 := hR.walkG
+  have g0t := hR.walkG t
+  have g1 := hS.regMx
+  have g1t := hS.regMx t
+  unfold execBind
+  try unfold walkNext
+  try unfold afterHint
+  try unfold applyReset
+  try simp only [C_propHolds, C_copyNeverClears, afterLists, ↓reduceIte, Bool.true_and]
+  repeat' split
+  all_goals (try rw [‹s.pc t = _›] at g0t)
+  all_goals (try simp [Pc.walkSrc, Pc.inReg, Pc.walkSrc_inReg] at g0t)
+  all_goals (try rw [‹s.pc t = _›] at g1t)
+  all_goals (try simp [Pc.walkSrc, Pc.inReg, Pc.walkSrc_inReg] at g1t)
+  all_goals (intro t' a h1; by_cases ht : t' = t <;> first | (subst ht; try simp [C, upd_apply, afterLists, nextList, Pc.walkSrc, Pc.inReg, Pc.walkSrc_inReg] at h1 ⊢) | (try simp [ht, C, upd_apply, afterLists, nextList] at h1 ⊢))
+  all_goals grind [Pc.walkSrc, Pc.inReg, Pc.walkSrc_inReg]
+
+theorem walkG_exec_o (hS : Struct reg s) (hO : Orig s) (hH : Hint s) (hR : Reach reg s) :
+    ∀ t' a, ((execOther s t).pc t').walkSrc = some a → (execOther s t).srcOf (execOther s t).G = a ∧ 1 ≤ (execOther s t).G := by
+  have g0 := hR.walkG
+  have g0t := hR.walkG t
+  have g1 := hS.regMx
+  have g1t := hS.regMx t
+  unfold execOther
+  try unfold walkNext
+  try unfold afterHint
+  try unfold applyReset
+  try simp only [C_propHolds, C_copyNeverClears, afterLists, ↓reduceIte, Bool.true_and]
+  repeat' split
+  all_goals (try rw [‹s.pc t = _›] at g0t)
+  all_goals (try simp [Pc.walkSrc, Pc.inReg, Pc.walkSrc_inReg] at g0t)
+  all_goals (try rw [‹s.pc t = _›] at g1t)
+  all_goals (try simp [Pc.walkSrc, Pc.inReg, Pc.walkSrc_inReg] at g1t)
+  all_goals (intro t' a h1; by_cases ht : t' = t <;> first | (subst ht; try simp [C, upd_apply, afterLists, nextList, Pc.walkSrc, Pc.inReg, Pc.walkSrc_inReg] at h1 ⊢) | (try simp [ht, C, upd_apply, afterLists, nextList] at h1 ⊢))
+  all_goals grind [Pc.walkSrc, Pc.inReg, Pc.walkSrc_inReg]
+
+theorem walkG_exec (hS : Struct reg s) (hO : Orig s) (hH : Hint s) (hR : Reach reg s) :
+    ∀ t' a, ((exec (C r) reg s t).pc t').walkSrc = some a → (exec (C r) reg s t).srcOf (exec (C r) reg s t).G = a ∧ 1 ≤ (exec (C r) reg s t).G := by
+  unfold exec
+  split
+  · exact walkG_exec_c hS hO hH hR
+  · split
+    · exact walkG_exec_b hS hO hH hR
+    · exact walkG_exec_o hS hO hH hR
+
+theorem walkG_begin (hS : Struct reg s) (hO : Orig s) (hH : Hint s) (hR : Reach reg s) (hi : s.pc t = .idle) :
+    ∀ t' a, ((begin (C r) reg s t).pc t').walkSrc = some a → (begin (C r) reg s t).srcOf (begin (C r) reg s t).G = a ∧ 1 ≤ (begin (C r) reg s t).G := by
+  have g0 := hR.walkG
+  have g0t := hR.walkG t
+  have g1 := hS.regMx
+  have g1t := hS.regMx t
+  begin_cases
+  all_goals (try rw [hi] at g0t)
+  all_goals (try simp [Pc.walkSrc, Pc.inReg, Pc.walkSrc_inReg] at g0t)
+  all_goals (try rw [hi] at g1t)
+  all_goals (try simp [Pc.walkSrc, Pc.inReg, Pc.walkSrc_inReg] at g1t)
+  all_goals (intro t' a h1; by_cases ht : t' = t <;> first | (subst ht; try simp [C, upd_apply, afterLists, nextList, Pc.walkSrc, Pc.inReg, Pc.walkSrc_inReg] at h1 ⊢) | (try simp [ht, C, upd_apply, afterLists, nextList] at h1 ⊢))
+  all_goals grind [Pc.walkSrc, Pc.inReg, Pc.walkSrc_inReg]
+
+theorem syncG_exec_c (hS : Struct reg s) (hO : Orig s) (hH : Hint s) (hR : Reach reg s) :
+    ∀ t' a i g, (execCancel (C r) reg s t).pc t' = .cSync a i g → g = (execCancel (C r) reg s t).G := by
+  have g0 := hR.syncG
+  have g0t := hR.syncG t
+  have g1 := hS.regMx
+  have g1t := hS.regMx t
+  unfold execCancel
+  try unfold walkNext
+  try unfold afterHint
+  try unfold applyReset
+  try simp only [C_propHolds, C_copyNeverClears, afterLists, ↓reduceIte, Bool.true_and]
+  repeat' split
+  all_goals (try rw [‹s.pc t = _›] at g0t)
+  all_goals (try simp [Pc.inReg] at g0t)
+  all_goals (try rw [‹s.pc t = _›] at g1t)
+  all_goals (try simp [Pc.inReg] at g1t)
+  all_goals (intro t' a i g h1; by_cases ht : t' = t <;> first | (subst ht; try simp [C, upd_apply, afterLists, nextList, Pc.inReg] at h1 ⊢) | (try simp [ht, C, upd_apply, afterLists, nextList] at h1 ⊢))
+  all_goals grind [Pc.inReg]
+
+theorem syncG_exec_b (hS : Struct reg s) (hO : Orig s) (hH : Hint s) (hR : Reach reg s) :
+    ∀ t' a i g, (execBind (C r) s t).pc t' = .cSync a i g → g = (execBind (C r) s t).G := by
+  have g0 := hR.syncG
+  have g0t := hR.syncG t
+  have g1 := hS.regMx
+  have g1t := hS.regMx t
+  unfold execBind
+  try unfold walkNext
+  try unfold afterHint
+  try unfold applyReset
+  try simp only [C_propHolds, C_copyNeverClears, afterLists, ↓reduceIte, Bool.true_and]
+  repeat' split
+  all_goals (try rw [‹s.pc t = _›] at g0t)
+  all_goals (try simp [Pc.inReg] at g0t)
+  all_goals (try rw [‹s.pc t = _›] at g1t)
+  all_goals (try simp [Pc.inReg] at g1t)
+  all_goals (intro t' a i g h1; by_cases ht : t' = t <;> first | (subst ht; try simp [C, upd_apply, afterLists, nextList, Pc.inReg] at h1 ⊢) | (try simp [ht, C, upd_apply, afterLists, nextList] at h1 ⊢))
+  all_goals grind [Pc.inReg]
+
+theorem syncG_exec_o (hS : Struct reg s) (hO : Orig s) (hH : Hint s) (hR : Reach reg s) :
+    ∀ t' a i g, (execOther s t).pc t' = .cSync a i g → g = (execOther s t).G := by
+  have g0 := hR.syncG
+  have g0t := hR.syncG t
+  have g1 := hS.regMx
+  have g1t := hS.regMx t
+  unfold execOther
+  try unfold walkNext
+  try unfold afterHint
+  try unfold applyReset
+  try simp only [C_propHolds, C_copyNeverClears, afterLists, ↓reduceIte, Bool.true_and]
+  repeat' split
+  all_goals (try rw [‹s.pc t = _›] at g0t)
+  all_goals (try simp [Pc.inReg] at g0t)
+  all_goals (try rw [‹s.pc t = _›] at g1t)
+  all_goals (try simp [Pc.inReg] at g1t)
+  all_goals (intro t' a i g h1; by_cases ht : t' = t <;> first | (subst ht; try simp [C, upd_apply, afterLists, nextList, Pc.inReg] at h1 ⊢) | (try simp [ht, C, upd_apply, afterLists, nextList] at h1 ⊢))
+  all_goals grind [Pc.inReg]
+
+theorem syncG_exec (hS : Struct reg s) (hO : Orig s) (hH : Hint s) (hR : Reach reg s) :
+    ∀ t' a i g, (exec (C r) reg s t).pc t' = .cSync a i g → g = (exec (C r) reg s t).G := by
+  unfold exec
+  split
+  · exact syncG_exec_c hS hO hH hR
+  · split
+    · exact syncG_exec_b hS hO hH hR
+    · exact syncG_exec_o hS hO hH hR
+
+theorem syncG_begin (hS : Struct reg s) (hO : Orig s) (hH : Hint s) (hR : Reach reg s) (hi : s.pc t = .idle) :
+    ∀ t' a i g, (begin (C r) reg s t).pc t' = .cSync a i g → g = (begin (C r) reg s t).G := by
+  have g0 := hR.syncG
+  have g0t := hR.syncG t
+  have g1 := hS.regMx
+  have g1t := hS.regMx t
+  begin_cases
+  all_goals (try rw [hi] at g0t)
+  all_goals (try simp [Pc.inReg] at g0t)
+  all_goals (try rw [hi] at g1t)
+  all_goals (try simp [Pc.inReg] at g1t)
+  all_goals (intro t' a i g h1; by_cases ht : t' = t <;> first | (subst ht; try simp [C, upd_apply, afterLists, nextList, Pc.inReg] at h1 ⊢) | (try simp [ht, C, upd_apply, afterLists, nextList] at h1 ⊢))
+  all_goals grind [Pc.inReg]
 
 end TbbVerif.C04
